@@ -37,6 +37,7 @@ var genPlans = map[string][]genPlan{
 	"C11": {{kind: "isolation", quickDepth: 3, thoroughDepth: 4}, {kind: "isolation", cfg: Config{Disk: true}, quickDepth: 2, thoroughDepth: 3}},
 	"C12": {{kind: "views", quickDepth: 3, thoroughDepth: 4}, {kind: "views", cfg: Config{Disk: true}, quickDepth: 2, thoroughDepth: 3}},
 	"C13": {{kind: "registry", quickDepth: 4, thoroughDepth: 6}},
+	"C19": {{kind: "queries", quickDepth: 3, thoroughDepth: 4}, {kind: "queries", cfg: Config{Disk: true}, quickDepth: 3, thoroughDepth: 4}},
 	"C14": {{kind: "expiry", quickDepth: 4, thoroughDepth: 5}, {kind: "expiry", cfg: Config{Disk: true}, quickDepth: 3, thoroughDepth: 4}},
 	"C16": {{kind: "feeds", cfg: Config{Disk: true}, quickDepth: 4, thoroughDepth: 5}, {kind: "feeds", quickDepth: 4, thoroughDepth: 5}},
 }
